@@ -16,6 +16,10 @@ pub struct Case {
     /// 0 pure, 1..3 pre-hash
     pub mode: u8,
     pub seed: u64,
+    /// content class of the context: 0 position-dependent pseudo-random bytes, 1..3 valid UTF-8 made of 2- / 3- /
+    /// 4-byte characters (fewer characters than bytes), 4 printable ASCII
+    #[serde(default)]
+    pub content: u8,
 }
 
 fn lengths(ctx: &Ctx) -> Vec<u32> {
@@ -31,10 +35,34 @@ fn lengths(ctx: &Ctx) -> Vec<u32> {
     v
 }
 
-fn ctx_bytes(len: u32, seed: u64) -> Vec<u8> {
+fn ctx_bytes(len: u32, seed: u64, content: u8) -> Vec<u8> {
     // position-dependent, never all-equal, so that truncations and wraps are distinguishable
     let r = gen::prg_bytes(seed ^ u64::from(len), "c07-ctx", 64);
-    (0..len as usize).map(|i| r[i % 64] ^ (i / 64) as u8).collect()
+    let len = len as usize;
+    match content % 5 {
+        0 => (0..len).map(|i| r[i % 64] ^ (i / 64) as u8).collect(),
+        4 => (0..len).map(|i| 0x20 + (r[i % 64] ^ (i / 64) as u8) % 95).collect(),
+        c => {
+            // text: characters of c+1 bytes each (varying code points), padded with ASCII to the exact byte length
+            let mut out = String::new();
+            let mut i = 0usize;
+            while out.len() + (c as usize + 1) <= len {
+                let v = u32::from(r[i % 64] ^ (i / 64) as u8);
+                let ch = match c {
+                    1 => char::from_u32(0xC0 + v % 0x100).unwrap_or('\u{e9}'),  // U+00C0..U+01BF: 2 bytes
+                    2 => char::from_u32(0x20A0 + v).unwrap_or('\u{20ac}'),     // U+20A0..: 3 bytes
+                    _ => char::from_u32(0x1F600 + v % 0x40).unwrap_or('\u{1f600}'), // emoticons: 4 bytes
+                };
+                out.push(ch);
+                i += 1;
+            }
+            let mut b = out.into_bytes();
+            while b.len() < len {
+                b.push(b'a' + (b.len() % 26) as u8);
+            }
+            b
+        }
+    }
 }
 
 pub fn check(c: &Case, st: &mut Stats) -> CheckResult {
@@ -46,7 +74,7 @@ pub fn check(c: &Case, st: &mut Stats) -> CheckResult {
     let (pk, sk) = g("keygen_from_seed", || libr.keygen_from_seed(&xi))?;
     let (_, rsk) = rf::keygen_internal(&p, &xi);
     let m = gen::prg_bytes(c.seed ^ 0x55, "c07-msg", 1 + (c.len as usize % 40));
-    let ctx = ctx_bytes(c.len, c.seed);
+    let ctx = ctx_bytes(c.len, c.seed, c.content);
     let rnd = [0x3Cu8; 32];
     let tag = format!("set{}:{}", p.id, mode.tag());
     st.eval();
@@ -68,6 +96,7 @@ pub fn check(c: &Case, st: &mut Stats) -> CheckResult {
     }
     // ---- len > 255 ----
     st.class("len>255");
+    st.class(["len>255:ctx=pseudo-random bytes", "len>255:ctx=UTF-8 text of 2-byte characters", "len>255:ctx=UTF-8 text of 3-byte characters", "len>255:ctx=UTF-8 text of 4-byte characters", "len>255:ctx=printable ASCII"][c.content as usize % 5]);
     // signing must fail on every entry point
     let mut rng = TestRng::replay(&rnd);
     match g_sign(&*sk, &mut rng, &m, &ctx, mode) {
@@ -160,7 +189,8 @@ pub fn run(ctx: &Ctx, rep: &mut Report) {
         let len = lens[(i / 6) as usize];
         let set = ((i % 6) / 2) as u8;
         let mode = if i % 2 == 0 { 0 } else { 1 + (len % 3) as u8 };
-        Case { set, len, mode, seed: crate::engine::hash_of(&(seed, "c07", set)) }
+        let content = if len > 255 { ((len + u32::from(set)) % 5) as u8 } else { (len % 2) as u8 * 4 };
+        Case { set, len, mode, seed: crate::engine::hash_of(&(seed, "c07", set)), content }
     };
     run_sweep(rep, "all_lengths", n, false, |i, st| {
         let c = case_of(i);
@@ -170,7 +200,73 @@ pub fn run(ctx: &Ctx, rep: &mut Report) {
         }
         r
     }, |i| serde_json::to_value(case_of(i)).expect("ser"));
+    huge_messages(ctx, rep);
     rep.note(format!("context lengths enumerated: 0..={} plus {:?}", if ctx.quick() { 1100 } else { 4096 }, &lens[lens.len().saturating_sub(7)..]));
+}
+
+#[derive(Clone, Debug, Hash, Serialize, Deserialize)]
+pub struct HugeCase {
+    pub set: u8,
+    pub mode: u8,
+    pub msg_len: u64,
+    pub ctx_len: u32,
+}
+
+/// Over-long context together with a message so long that a 32-bit count of the formatted input (in bits:
+/// 2^29 bytes; in bytes: 2^32) wraps. One shared zero-filled buffer; on a correct library every call returns at once.
+fn huge_messages(ctx: &Ctx, rep: &mut Report) {
+    let sub = "huge_message_long_ctx";
+    let mut lens: Vec<u64> = vec![(1 << 29) - 100, (1 << 29) - 302, 1 << 29, (1 << 29) + 7];
+    if !ctx.quick() {
+        lens.extend([(1u64 << 32) - 200, (1u64 << 32) - 302, 1u64 << 32]);
+    }
+    let max = *lens.iter().max().expect("non-empty") as usize;
+    let mut buf = vec![0u8; max];
+    buf[0] = 1;
+    let sets: &[u8] = if ctx.quick() { &[0] } else { &[0, 1, 2] };
+    for &set in sets {
+        let libr = libs()[set as usize];
+        let p = libr.p();
+        let (pk, sk) = match g("keygen_from_seed", || libr.keygen_from_seed(&[0x33; 32])) {
+            Ok(k) => k,
+            Err(f) => {
+                rep.violation(sub, f, json!({"set": set}));
+                return;
+            }
+        };
+        for &n in &lens {
+            for mode in [0u8, 1 + (n % 3) as u8] {
+                let md = gen::mode_of(mode);
+                for ctx_len in [300u32, 256] {
+                    let c = HugeCase { set, mode, msg_len: n, ctx_len };
+                    let cx = ctx_bytes(ctx_len, n, 0);
+                    let m = &buf[..n as usize];
+                    let _wd = crate::engine::watch(|| format!("C07/{sub}: {c:?}"));
+                    let st = rep.stats(sub);
+                    st.eval();
+                    st.nontrivial_enumerated += 1;
+                    st.class(&format!("msg_len={n}"));
+                    let mut rng = TestRng::replay(&[0x3C; 32]);
+                    let r: CheckResult = (|| {
+                        match g_sign(&*sk, &mut rng, m, &cx, md) {
+                            Ok(Err(_)) => {}
+                            Ok(Ok(_)) => return Err(Fail::new(format!("long_ctx_signed_huge_message:set{}:{}", p.id, md.tag()), format!("set {} {}: signing returned a signature for a context of {ctx_len} bytes with a message of {n} bytes", p.id, md.tag()))),
+                            Err(pi) => return Err(Fail::panic("sign (huge message, long ctx)", &pi)),
+                        }
+                        if g_verify(&*pk, m, &vec![0x5A; p.sig_len], &cx, md)? {
+                            return Err(Fail::new(format!("long_ctx_verified_huge_message:set{}", p.id), format!("set {}: a junk signature verifies with a context of {ctx_len} bytes and a message of {n} bytes", p.id)));
+                        }
+                        Ok(())
+                    })();
+                    if let Err(f) = r {
+                        if !rep.violations.iter().any(|v| v.sub == sub && v.key == f.key) {
+                            rep.violation(sub, f, serde_json::to_value(&c).expect("ser"));
+                        }
+                    }
+                }
+            }
+        }
+    }
 }
 
 pub fn replay(_ctx: &Ctx, sub: &str, case: &Value) -> Option<CheckResult> {
